@@ -2,10 +2,13 @@
    Property theorems only; every proof is [exact <lemma>].
    Strings are code-point lists; positions and lengths are BYTE offsets of the UTF-8 encoding
    ([blen], Utf8.v) in every command that counts (length, indexof, last_indexof, substring).
-   Not covered by theorems (correspondence run only, see lib/props/c16.py): less_than / greater_than
-   (f64 rounding is not modelled), calc (evalexpr is third-party), uppercase / lowercase (Unicode
-   case tables are not modelled). *)
-Require Import DS.Base DS.Utf8 DS.Strings DS.StringsProof DS.StringsProof2.
+   Partial (model-level theorems only; the link to the code is the correspondence run on a stated
+   domain, see lib/props/c16.py): less_than / greater_than (C16_compare: the model orders the
+   rationals the two literals denote; f64 rounding is NOT modelled), calc (C16_calc_sound: the
+   checked-i64 oracle is ordinary arithmetic; evalexpr is third-party and NOT modelled),
+   uppercase / lowercase (ASCII oracle; the Unicode case tables are NOT modelled). *)
+Require Import DS.Base DS.Utf8 DS.Strings DS.StringsProof DS.StringsProof2 DS.StringsNum.
+Require QArith.
 
 (* ---- one consistent unit ---------------------------------------------------------------------- *)
 
@@ -21,6 +24,22 @@ Theorem C16_units_cmd : forall s t rest istr,
   cmd_indexof (s :: t :: rest) = RVal istr -> s <> [] -> (Z.of_N (blen s) <= i64_max)%Z ->
   exists p, cmd_substring [s; [48]; istr] = RVal p /\ is_prefix (p ++ t) s = true.
 Proof. exact units_cmd. Qed.
+
+(* last_indexof counts in the same unit too *)
+Theorem C16_units_last : forall s t i,
+  rfind s t = Some i -> s <> [] -> t <> [] ->
+  exists p, substring3 s 0 (Z.of_N i) = RVal p /\ is_prefix (p ++ t) s = true.
+Proof. exact units_last. Qed.
+(* cutting at the index found and gluing gives the text back: substring(s,0,i) ++ substring(s,i) = s *)
+Theorem C16_units_cut : forall s t i,
+  find s t = Some i -> t <> [] ->
+  exists p r, substring3 s 0 (Z.of_N i) = RVal p /\ substring2 s (Z.of_N i) = RVal r /\ s = p ++ r /\
+              is_prefix t r = true.
+Proof. exact units_cut. Qed.
+(* length(substring(s, a, b)) = b - a in the unit of `length` *)
+Theorem C16_substr_length : forall s a b m,
+  substring3 s a b = RVal m -> Z.of_N (blen m) = (b - a)%Z.
+Proof. exact substring3_length. Qed.
 
 (* ---- split ------------------------------------------------------------------------------------- *)
 
@@ -88,6 +107,15 @@ Proof. exact parse_int_show_Z. Qed.
 Theorem C16_parse_range : forall lo hi s z, parse_int lo hi s = Some z -> (lo <= z <= hi)%Z.
 Proof. exact parse_int_range. Qed.
 
+(* the exact language of str::parse::<isize / i64>: one optional sign, at least one ASCII digit,
+   nothing else, value inside the type *)
+Theorem C16_parse_grammar : forall lo hi s z,
+  parse_int lo hi s = Some z <->
+  exists sg ds n, s = sg ++ ds /\ (sg = [] \/ sg = [43] \/ sg = [45]) /\ ds <> [] /\
+                  forallb is_digit ds = true /\ digits_val ds = Some n /\
+                  z = sign_of sg n /\ (lo <= z <= hi)%Z.
+Proof. exact parse_int_grammar. Qed.
+
 (* ---- length, indexof, last_indexof ------------------------------------------------------------- *)
 
 Theorem C16_length : forall s rest p q,
@@ -153,6 +181,22 @@ Theorem C16_trim_end : forall s,
   (exists r, s = trim_end s ++ r /\ all_ws r /\ head_not_ws (rev (trim_end s))) /\
   (forall m r, s = m ++ r -> all_ws r -> head_not_ws (rev m) -> trim_end s = m).
 Proof. exact (fun s => conj (trim_end_exists s) (trim_end_unique s)). Qed.
+
+(* ---- less_than / greater_than, calc: model-level statements (partial, see header) ------------- *)
+
+Theorem C16_compare_partial : forall gt a b n1 d1 e1 n2 d2 e2 x y,
+  parse_dec a = DNum n1 d1 e1 -> parse_dec b = DNum n2 d2 e2 ->
+  dec_norm n1 d1 e1 = Some x -> dec_norm n2 d2 e2 = Some y ->
+  exists r, cmd_compare gt [a; b] = of_bool r /\
+            (r = true <-> if gt then QArith_base.Qlt (qval y) (qval x) else QArith_base.Qlt (qval x) (qval y)).
+Proof. exact cmd_compare_spec. Qed.
+Theorem C16_compare_errors : forall gt,
+  (forall args, (forall a b, args <> [a; b]) -> cmd_compare gt args = RErr 12) /\
+  (forall a b, parse_dec a = DBad \/ parse_dec b = DBad -> cmd_compare gt [a; b] = RErr 4).
+Proof. exact (fun gt => conj (cmd_compare_errors gt) (cmd_compare_nonnumeric gt)). Qed.
+Theorem C16_calc_partial : forall e v,
+  cmd_calc_expr e = RVal v -> exists z, denote e = Some z /\ v = show_Z z /\ (- two53 <= z <= two53)%Z.
+Proof. exact cmd_calc_sound. Qed.
 
 (* ---- the executable specifications used as oracles are the model ------------------------------- *)
 
